@@ -57,6 +57,7 @@ Ltac np_step fin :=
   | |- np (bind _ _) => apply np_bind; [| intros ? ?]
   | |- np (seg _ _) => apply np_map_err
   | |- np (rewrap _ _) => apply np_map_err
+  | |- np (rewrap_path _) => apply np_map_err
   | |- np (map_err _ _) => apply np_map_err
   | |- np (mapMi _ _ _) => apply np_mapMi; intros ? ? ?
   | |- np (mapM _ _) => apply np_mapM; intros ? ?
